@@ -772,7 +772,18 @@ func (d *DataChannel) collectStats(collector *statsReportCollector) {
 	collector.Collect(stats.ID, stats)
 }
 
+// setReadyState only ever moves the state forward along
+// connecting -> open -> closing -> closed: a close path that lost the
+// race against another one must not resurrect an earlier state.
 func (d *DataChannel) setReadyState(r DataChannelState) {
-	verifhook.Yield("dc.state", d, int(r))
-	d.readyState.Store(r)
+	for {
+		old := d.readyState.Load()
+		if cur, _ := old.(DataChannelState); cur >= r {
+			return
+		}
+		verifhook.Yield("dc.state", d, int(r))
+		if d.readyState.CompareAndSwap(old, r) {
+			return
+		}
+	}
 }
